@@ -242,7 +242,10 @@ fn generate_flood(r: &mut Rng, k: u32, t: u16, threshold: Option<u32>) -> Option
 pub fn generate(seed: u64, quick: bool) -> BlockScenario {
     let mut r = Rng::new(seed);
     let k: u32 = if quick {
-        if r.chance(3, 4) {
+        if r.chance(1, 1000) {
+            // a few large blocks in the quick tier too (the oracle costs about a second each here)
+            r.range(121, 1200) as u32
+        } else if r.chance(3, 4) {
             *r.pick(&K_POOL_QUICK)
         } else {
             r.range(1, 120) as u32
@@ -513,7 +516,7 @@ pub fn run(ctx: &Ctx) -> i32 {
             }),
             assumptions: vec![
                 "numeric tables V0..V3 and Table 2 are vendored from the pinned commit (no independent copy of RFC 6330 on this host); the matrix structure, Rand/Deg/Tuple and the field arithmetic are written from the RFC".into(),
-                format!("K <= {} in this tier", if quick { 120 } else { 1200 }),
+                format!("K <= 1200; {} of the sequences above 120", if quick { "0.1 %" } else { "40 %" }),
             ],
             wall_s: wall,
             violations: violations.len() as u64,
